@@ -269,26 +269,32 @@ MIXED_CASES = [
     (':empty, :root', lambda e, m: _dflt(m, e) and (e.get('id') == 'r' or not e.contents)),
     ('item, thing', lambda e, m: _dflt(m, e) and e.name in ('item', 'thing')),
     ('*|item:not(:required, o|item)', lambda e, m: e.name == 'item' and not _pref(m, 'o', e)),
+    # inside a pseudo-class no universal is implied: type-less members of its list are not bound to the default namespace
+    ('*|*:not(.hit, .other)', lambda e, m: not _cls(e, 'hit') and not _cls(e, 'other')),
+    ('*|*:not(.other, .hit)', lambda e, m: not _cls(e, 'hit') and not _cls(e, 'other')),
+    ('*|*:not(#b1, [k], #n1)', lambda e, m: e.get('id') not in ('b1', 'n1') and e.get('k') is None),
+    ('*|*:is(.hit, [k], #a2)', lambda e, m: _cls(e, 'hit') or e.get('k') is not None or e.get('id') == 'a2'),
+    ('*|*:nth-child(n of .hit, .other)', lambda e, m: _cls(e, 'hit') or _cls(e, 'other')),
+    ('*|*:matches(.other, .hit):not([k], #h1)', lambda e, m: (_cls(e, 'hit') or _cls(e, 'other')) and e.get('k') is None and e.get('id') != 'h1'),
+    ('*|*:--both', lambda e, m: _cls(e, 'hit') or _cls(e, 'other')),
+    ('*|*:has(> .other, > [k])', lambda e, m: e.get('id') in ('r', 'h1')),
 ]
+MIXED_CUSTOM = {':--both': '.hit, .other'}
 
 
-def mixed_ns_ok(ci: int, mi: int, how: int) -> bool:
+def mixed_ns_ok(ci: int) -> bool:
     """
     pre: 0 <= ci < len(MIXED_CASES)
-    pre: 0 <= mi < len(MIXED_MAPS)
-    pre: 0 <= how < 3
     post: _
     """
-    ci, mi, how = concrete(ci), concrete(mi), concrete(how)
+    ci = concrete(ci)
     with notrace():
         text, pred = MIXED_CASES[ci]
-        m = MIXED_MAPS[mi]
-        exp = [e.get('id') for e in MIXED_ELS if pred(e, m)]
-        c = sv.compile(text, namespaces=m)
-        if how == 0:
-            got = [e.get('id') for e in c.select(MIXED)]
-        elif how == 1:
-            got = [e.get('id') for e in MIXED_ELS if c.match(e)]
-        else:
-            got = [e.get('id') for e in c.filter(MIXED_ELS)]
-    return ret(got == exp)
+        ok = True
+        for m in MIXED_MAPS:
+            exp = [e.get('id') for e in MIXED_ELS if pred(e, m)]
+            c = sv.compile(text, namespaces=m, custom=MIXED_CUSTOM)
+            ok = ok and [e.get('id') for e in c.select(MIXED)] == exp
+            ok = ok and [e.get('id') for e in MIXED_ELS if c.match(e)] == exp
+            ok = ok and [e.get('id') for e in c.filter(MIXED_ELS)] == exp
+    return ret(ok)
